@@ -34,9 +34,9 @@ CHECKS = {
             "library bytes equal the specification's Enc(v) and the library decodes Enc(v) to v for every generated tree incl. FFmpeg/Flash metadata; Discovery class and decode/no-decode match for all 256 markers in every position; trees with non-empty strict arrays are classified as the known finding only if both encoder and decoder behave exactly as the specification's StrictKeyed prediction, anything else is a violation",
             "the independent implementation is the TLA+ spec evaluated by TLC; strict-array elements have no positional accessor (compared through bytes)", "5/C06"),
     "C07": ("exploration",
-            "TLA+ spec Untrusted.tla (Pick -> Mutate -> Decode state machine over the specification's valid encodings of every wire format, mutation operators as actions, Total/WellFormed/Bounded invariants checked by TLC, named deviation PanicOnForbidden) + TLC-enumerated mutation instances, enum ranges and scaling families replayed into 56 decoder variants of the real library under recover, a stall/heap watchdog and a growth-ratio timer",
+            "TLA+ spec Untrusted.tla (Pick -> Mutate -> Decode state machine over the specification's valid encodings of every wire format, mutation operators as actions - field overwrite / truncate / dup / drop / splice / nest, Restate (a chunk header re-stating length/type/stream of a message in progress), DER inner truncation with re-computed outer lengths, Forge (a hostile sender that holds the content key: authenticated hostile ciphertext, iv, padding, deflate stream, CEK size) - Total/WellFormed/Bounded invariants checked by TLC, named deviation PanicOnForbidden) + TLC-enumerated mutation instances, enum ranges and scaling families replayed into 56 decoder variants of the real library under recover, a stall/heap watchdog and a growth-ratio timer",
             "every listed decoder (rtmp chunk/message/packet, amf0, flv, aac, avc, websocket in both roles with and without compression, JOSE with every key kind, OCSP, JSON+) is fed the specification's valid encodings under every single mutation operator instance TLC enumerates (two operators in thorough) plus 8 (quick) / 64 (thorough) seeded random byte mutants of each and random strings up to 64 KiB - 1.7 M calls quick, 44 M thorough; each call must return a value or an error: no panic, no stall, no unbounded allocation; all enum helpers are total over their 8/16-bit ranges; no scaling family grows faster than 3.2x per doubling over its last three doublings (thread CPU and wall clock, re-measured before a verdict)",
-            "the input space is sampled, not exhausted, no coverage-guided fuzzing; linear time judged only on the named families up to 256 KiB (quick) / 1 MiB (thorough) with loose thresholds; JOSE/OCSP seeds made by the library's own writers plus RFC forms; a fatal runtime error (stack exhaustion, OOM) ends the replayer with exit 2 instead of a verdict; trusted: harness/ld, rp, transport, Go's recover", "5/C07"),
+            "the input space is sampled, not exhausted, no coverage-guided fuzzing; linear time judged only on the named families up to 256 KiB (quick) / 1 MiB (thorough) with loose thresholds; JOSE/OCSP seeds made by the library's own writers plus RFC forms and an independent JWE writer of the harness (stdlib crypto) for the forged objects; a fatal runtime error (stack exhaustion, OOM) ends the replayer with exit 2 instead of a verdict; trusted: harness/ld, rp, transport, Go's recover", "5/C07"),
     "C08": ("model_checking",
             "TLA+ specs ErrChain.tla (constructor nestings, Cause/text/nil rules) and FramedIo.tla (framed stream over a transport that ends or fails at any byte; Complete(n) oracle) checked by TLC; TLC-enumerated nestings and sessions replayed with every cut offset and every read/write call fault against errors, rtmp (incl. handshake) and flv",
             "TLC checks the framed-stream model for every cut / read-fault offset of a small stream (returned items = exactly the completely transferred ones, in order, then the transport's error class; the 'partial item returned' deviation violates it); every constructor nesting to depth 4/6 and every generated RTMP session, FLV file and the handshake is replayed against the real code at EVERY cut offset under two segmentations and with an injected sentinel at every read and write call index, checking root-cause identity through errors.Cause, exact item counts and that nothing is returned together with an error",
